@@ -39,6 +39,13 @@ CumulantStep ==
     /\ Judge(<< <<"CumulantsAreDerivatives",
                     \A i \in 1..Len(E.rows) : Abs(E.rows[i][2] - E.rows[i][3]) <= Tol>> >>)
     /\ ln' = ln + 1 /\ UNCHANGED <<tid, fin>>
+\* row = <<side chosen with the mass of the half-line (1 / 0), tail of the measure beyond the jump (relative to its side),
+\*         the uniform's complement>> in units of 1e-9
+JumpLawStep ==
+    /\ More /\ E.e = "JumpLaw"
+    /\ Judge(<< <<"JumpIncrementFollowsTheMeasure",
+                    \A i \in 1..Len(E.rows) : E.rows[i][1] = 1 /\ Abs(E.rows[i][2] - E.rows[i][3]) <= 50>> >>)
+    /\ ln' = ln + 1 /\ UNCHANGED <<tid, fin>>
 RaiseStep ==
     /\ More /\ E.e = "Raise"
     /\ PrintT(<<"REJECT", Id, ln, "Raise", H.kind>>)
@@ -47,6 +54,6 @@ Finish ==
     /\ ~fin /\ ln = Len(T) + 1
     /\ IF bad = 0 THEN PrintT(<<"ACCEPT", Id>>) ELSE TRUE
     /\ fin' = TRUE /\ UNCHANGED <<tid, ln, bad>>
-TraceNext == ExponentStep \/ CumulantStep \/ RaiseStep \/ Finish
+TraceNext == ExponentStep \/ CumulantStep \/ JumpLawStep \/ RaiseStep \/ Finish
 TraceSpec == TraceInit /\ [][TraceNext]_tvars
 =============================================================================
